@@ -304,15 +304,28 @@ func Execute(s Script) Result {
 			in := make(chan []int, s.InCap)
 			spawnProd(func(j *jit) {
 				defer close(in)
+				// the producer cuts its slices out of one array and keeps reading what it sent
+				total := 0
+				for i := 0; i < n; i++ {
+					total += i % int(s.J+2)
+				}
+				arr := make([]int, total)
+				pos, sum := 0, 0
 				for i := 0; i < n; i++ {
 					j.wait()
-					sl := make([]int, i%int(s.J+2))
+					l := i % int(s.J+2)
+					sl := arr[pos : pos+l]
+					pos += l
 					select {
 					case in <- sl:
 					case <-ctx.Done():
 						return
 					}
+					for _, v := range arr[:pos] {
+						sum += v
+					}
 				}
+				_ = sum
 			})
 			d, err := unite.New(unite.Opts[int]{Input: in, JoinSize: s.J, NoCopy: s.NoCopy, Timeout: to})
 			if err != nil {
